@@ -344,16 +344,38 @@ func (a authorityAdapter) AddCheck(c biscuit.Check) error { return a.AddAuthorit
 
 // BuildAuthority builds a one-block token.
 func BuildAuthority(priv ed25519.PrivateKey, rng *DetRand, b m.Block, keyID *uint32) (*biscuit.Biscuit, error) {
+	return BuildAuthorityBase(priv, rng, b, keyID, nil)
+}
+
+// BuildAuthorityBase builds a one-block token over a custom base symbol table
+// (biscuit.WithSymbols) when base is non-empty.
+func BuildAuthorityBase(priv ed25519.PrivateKey, rng *DetRand, b m.Block, keyID *uint32, base []string) (*biscuit.Biscuit, error) {
 	var builder biscuit.Builder
-	if keyID != nil {
+	switch {
+	case keyID != nil && len(base) > 0:
+		st := datalog.SymbolTable(append([]string{}, base...))
+		builder = biscuit.NewBuilder(priv, biscuit.WithRNG(rng), biscuit.WithRootKeyID(*keyID), biscuit.WithSymbols(&st))
+	case keyID != nil:
 		builder = biscuit.NewBuilder(priv, biscuit.WithRNG(rng), biscuit.WithRootKeyID(*keyID))
-	} else {
+	case len(base) > 0:
+		st := datalog.SymbolTable(append([]string{}, base...))
+		builder = biscuit.NewBuilder(priv, biscuit.WithRNG(rng), biscuit.WithSymbols(&st))
+	default:
 		builder = biscuit.NewBuilder(priv, biscuit.WithRNG(rng))
 	}
 	if err := AddBlockTo(authorityAdapter{builder}, b); err != nil {
 		return nil, err
 	}
 	return builder.Build()
+}
+
+// UnmarshalBase reads a token that was composed over a custom base symbol table.
+func UnmarshalBase(data []byte, base []string) (*biscuit.Biscuit, error) {
+	if len(base) == 0 {
+		return biscuit.Unmarshal(data)
+	}
+	st := datalog.SymbolTable(append([]string{}, base...))
+	return (&biscuit.Unmarshaler{Symbols: &st}).Unmarshal(data)
 }
 
 // AppendBlock attenuates tok with block b.
